@@ -701,6 +701,7 @@ fn run(tier: Tier, seed: u64) -> i32 {
     let thorough = tier == Tier::Thorough;
     let bound = if thorough { 6 } else { 4 };
     let mut rep = Report::new("C17", tier, seed, "model_checking");
+    let _ = &mut rep;
     rep.exhaustive = true;
     rep.rule = format!(
         "the unmodified adapter source over the fakequinn stand-in. write path: frame sequences with payloads from {{0, 1, 5 bytes}} up to 3 frames, one 256 KiB frame, framed (send_data/poll_ready) and unframed (poll_send), on uni and bidi streams, an overlapping send_data inserted after every send_data, and one write fault of {{Stopped(c), ConnectionLost(ApplicationClosed(c)), ConnectionLost(TimedOut), ConnectionLost(Reset), ClosedStream, ZeroRttRejected}} from the k-th poll_write on (k = 0..4, c in {{0, 0x10c, 2^62-1}}), under EVERY poll_write answer sequence with <= {bound} deviations (accept 1 / half / n-1 bytes, Pending). read path: data of {{0, 1, 5, 40}} bytes x ending {{FIN, Reset(c), ConnectionLost(ApplicationClosed(c)), ConnectionLost(TimedOut), ConnectionLost(Reset), ClosedStream, open}} under every read_chunk answer sequence with <= {bound} deviations (chunk cuts, Pending), uni and bidi, with every operation sequence of length <= 3 over {{poll_data, recv_id, stop_sending(c)}} before the drain (identifier queries and stop_sending in every state: fresh, read pending, read completed, after FIN, after an error). Connection-level: all 8 ConnectionError variants x 3 codes on accept/open (connection and opener) and both datagram paths; close(code, reason); datagram bytes. Oracle: bytes seen by the stand-in = reference encoding of the buffers whose write completed (a prefix on error), ids constant, no panic, error classes and codes preserved. states = distinct (case, answer sequence) outcomes; non-trivial = executions with a deviation."
@@ -793,7 +794,7 @@ fn run(tier: Tier, seed: u64) -> i32 {
     let accs = explore::par::run(&jobs, Acc::new, |_, job, acc| {
         let caps = Caps { deadline: Some(deadline), max_executions: if thorough { 300_000 } else { 20_000 }, ..Caps::default() };
         let mut viol = ViolSet::new();
-        let mut nontrivial = 0u64;
+        let mut nontrivial: Vec<u64> = Vec::new();
         let mut outcomes: Vec<u64> = Vec::new();
         let key;
         let st = match job {
@@ -805,7 +806,11 @@ fn run(tier: Tier, seed: u64) -> i32 {
                     || w_execute(case, true),
                     |e, o| {
                         if e.cost > 0 {
-                            nontrivial += 1;
+                            let mut f = Fnv::new();
+                            for c in &e.choices {
+                                f.u64(*c as u64 + 1);
+                            }
+                            nontrivial.push(f.finish());
                         }
                         outcomes.push(explore::fnv_str(&format!("{:?}{:?}{}", o.results, o.overlap, o.written.len())));
                         for (sig, msg) in w_judge(case, &o) {
@@ -822,7 +827,11 @@ fn run(tier: Tier, seed: u64) -> i32 {
                     || r_execute(case, true),
                     |e, o| {
                         if e.cost > 0 {
-                            nontrivial += 1;
+                            let mut f = Fnv::new();
+                            for c in &e.choices {
+                                f.u64(*c as u64 + 1);
+                            }
+                            nontrivial.push(f.finish());
                         }
                         outcomes.push(explore::fnv_str(&format!("{}{}{:?}", o.terminal, o.received.len(), o.stops_seen_by_quinn)));
                         for (sig, msg) in r_judge(case, &o) {
@@ -846,8 +855,11 @@ fn run(tier: Tier, seed: u64) -> i32 {
             acc.outcomes.insert(*o);
             let _ = i;
         }
-        for k in 0..nontrivial.min(100_000) {
-            acc.nontrivial.insert(h.wrapping_add(k));
+        for k in nontrivial {
+            let mut f = Fnv::new();
+            f.u64(h);
+            f.u64(k);
+            acc.nontrivial.insert(f.finish());
         }
         match job {
             Job::W(case) => viol.drain_into(acc, |choices| w_json(case, choices, true)),
@@ -859,12 +871,69 @@ fn run(tier: Tier, seed: u64) -> i32 {
         total.merge(a);
     }
     e_checks(&mut total);
+    // conformance of the stand-in with real Quinn + the same oracle on real loopback runs
+    match real_quinn(thorough) {
+        Ok(v) => {
+            for x in v["violations"].as_array().cloned().unwrap_or_default() {
+                total.violation(x["signature"].as_str().unwrap_or("C17:real:?").to_string(), format!("real Quinn loopback: {}", x["what"].as_str().unwrap_or("")), (0, 0), || json!({"kind":"real"}));
+            }
+            let failed = v["standin_facts_failed"].as_array().cloned().unwrap_or_default();
+            if !failed.is_empty() {
+                explore::machinery_failure(&format!("the fakequinn stand-in misrepresents real Quinn (not a verdict about h3): {failed:?}"));
+            }
+            total.count("real_quinn_runs", v["runs"].as_u64().unwrap_or(0));
+            total.count("real_quinn_partial_writes_forced", v["partial_writes_forced"].as_u64().unwrap_or(0));
+            total.count("real_quinn_pending_polls", v["pendings_seen"].as_u64().unwrap_or(0));
+            total.count("standin_facts_checked_on_real_quinn", v["standin_facts_checked"].as_u64().unwrap_or(0));
+            rep.extra.insert("real_quinn_conformance".into(), v);
+        }
+        Err(e) => explore::machinery_failure(&format!("real-Quinn conformance runs failed to run: {e} (not a verdict about h3)")),
+    }
     total.count("write_cases", wcases.len() as u64);
     total.count("read_cases", rcases.len() as u64);
     total.samples.push(json!(format!("{:?}", wcases[wcases.len() / 3])));
     total.samples.push(json!(format!("{:?}", rcases[rcases.len() / 2])));
     total.samples.push(json!({"errors":"ConnectionError::ApplicationClosed(0x10c) on poll_accept_bidi","reference":"ApplicationClose{0x10c}"}));
     rep.finish(total)
+}
+
+/// Runs the sibling binary `quinnreal` (real adapter over real Quinn on loopback) with a wall cap.
+fn real_quinn(thorough: bool) -> Result<Value, String> {
+    let exe = std::env::current_exe().map_err(|e| e.to_string())?;
+    let bin = exe.parent().ok_or("no parent dir")?.join("quinnreal");
+    let mut child = std::process::Command::new(&bin)
+        .arg(if thorough { "thorough" } else { "quick" })
+        .env("RUST_BACKTRACE", "0")
+        .stdout(std::process::Stdio::piped())
+        .stderr(std::process::Stdio::inherit())
+        .spawn()
+        .map_err(|e| format!("{}: {e}", bin.display()))?;
+    let cap = std::time::Duration::from_secs(if thorough { 700 } else { 100 });
+    let start = std::time::Instant::now();
+    let mut stdout = child.stdout.take().ok_or("no stdout")?;
+    let reader = std::thread::spawn(move || {
+        let mut s = String::new();
+        let _ = std::io::Read::read_to_string(&mut stdout, &mut s);
+        s
+    });
+    loop {
+        match child.try_wait().map_err(|e| e.to_string())? {
+            Some(st) => {
+                let text = reader.join().map_err(|_| "reader thread")?;
+                if !st.success() {
+                    return Err(format!("quinnreal exited with {st}"));
+                }
+                return serde_json::from_str(text.trim()).map_err(|e| format!("unparsable output: {e}"));
+            }
+            None => {
+                if start.elapsed() > cap {
+                    let _ = child.kill();
+                    return Err(format!("quinnreal still running after {cap:?}"));
+                }
+                std::thread::sleep(std::time::Duration::from_millis(50));
+            }
+        }
+    }
 }
 
 fn replay(path: &str) -> i32 {
@@ -908,6 +977,13 @@ fn replay(path: &str) -> i32 {
             println!("case {case:?}\noutcome: {o:?}");
             r_judge(&case, &o)
         }
+        Some("real") => match real_quinn(false) {
+            Ok(v) => v["violations"].as_array().cloned().unwrap_or_default().iter().map(|x| (x["signature"].as_str().unwrap_or("").to_string(), x["what"].as_str().unwrap_or("").to_string())).collect(),
+            Err(e) => {
+                println!("MACHINERY-FAILURE: {e}");
+                return 2;
+            }
+        },
         _ => {
             let mut acc = Acc::new();
             e_checks(&mut acc);
